@@ -41,6 +41,16 @@ CLAIMED = {
         "level": "Decides: retry loop strictly bounded by retry_count with a freshly built request and exactly one send per attempt; a reply is returned only on the delivered edge; every wait_for_response and request send is inside `async with protocol.Lock`; only queue_send touches the transport; all 6 command/query methods are gated by is_connected and is_responding_to_pings.",
         "note": "NOT decided (runtime quantities): the N x (timeout+pause) time bound, FIFO service order of asyncio.Lock, starvation/stalls. asyncio.Lock FIFO hand-over and cooperative scheduling are assumed.",
     },
+    "C02": {
+        "technique": "bit-provenance abstract interpretation (per-bit Boolean functions of old[..]/new[..] symbols) of /repo's writer and reader code, once per geometry shape of the shipped tables; symbolic byte strings for the device-write encoders",
+        "level": "For every one of the 78 (type,width,bitpos,mask,writability) shapes occurring in the 20 505 shipped items, with SYMBOLIC field contents and SYMBOLIC new value: bits outside the item's field keep their provenance, field bits carry the new value, nothing overflows the field, (pos,length) are the item's; reading back the big-endian device write yields the value; read-only items refuse; sync and async writers emit identical writes; numeric/boolean string forms convert. One evaluation covers all block contents and all values.",
+        "note": "Trusted: vlib.absint BV domain; protocol assumption that the spa applies SPACK writes big-endian. NOT decided: Time 'HH:MM' and temperature float round trips as values (opaque arithmetic; affine part under C14).",
+    },
+    "C03": {
+        "technique": "dominance/loop-shape rules on replace_status_block_segment and status_block_changed; def-use provenance of the compared values; Order-domain enumeration of the intersection filter; who-may-write rule for the observer list",
+        "level": "Decides structurally: swap happens before any notification, each accessor is notified exactly once per update with (offset,len,previous), the notify decision compares decoded old (from the previous block) and decoded new through the same decoder and fires _on_change(self,old,new) exactly when they differ; the byte-range filter never drops an overlapping update (all orderings of the end points); watch de-duplicates, unwatch/unwatch_all remove, each live observer is called once.",
+        "note": "NOT decided: raising or re-entrant observers; ordering between accessors; histories of watch/unwatch interleaved with updates beyond the list discipline.",
+    },
 }
 
 NOT_APPLICABLE = {f"C{n:02d}": PENDING for n in range(1, 21) if f"C{n:02d}" not in CLAIMED}
